@@ -158,7 +158,12 @@ func (w *World) GenSegments(r *core.Run, ts time.Time, maxPerOrigin int) (*Segme
 					in := append([]uint16(nil), f.in...)
 					eg := append(append([]uint16(nil), f.eg...), 0)
 					segID := uint16(r.Choice("segid", 1<<16))
-					s, err := w.walkSeg(ts, segID, append([]*AS(nil), f.ases...), in, eg, coreWalk)
+					sts := ts
+					if w.SegJitter > 0 {
+						// beacons are originated at different times: per-segment timestamps
+						sts = ts.Add(-time.Duration(r.Choice("segts.jitter.s", int(w.SegJitter/time.Second)+1)) * time.Second)
+					}
+					s, err := w.walkSeg(sts, segID, append([]*AS(nil), f.ases...), in, eg, coreWalk)
 					if err != nil {
 						return err
 					}
